@@ -77,8 +77,10 @@ theorem retry_kept_reset_other (s : St) (k k' : Nat) (hkk : k ≠ k') (hp : Pend
   cases hr : s.key k' with
   | none => exact hp
   | some r =>
+    simp only []
     exact pending_of_key ((touch_resetKey_aux s k' r hr _
-      (touch_startKey (newRec (cancelOpt s r.gen r.cancelOf) k' r.gen) k' false)).2.1 k hkk) hp
+      ((touch_startKey (newRec (cancelOpt s r.gen r.cancelOf) k' r.gen) k' false).trans
+        (touch_resetTail s _ k' r.gen))).2.1 k hkk) hp
 
 /-- every event that is neither a call, nor the timer of `k`, nor the exit bookkeeping keeps it -/
 theorem retry_kept_instStep (s s' : St) (g i : Nat) (f : G → Inst → Option Inst) (k : Nat)
@@ -87,7 +89,7 @@ theorem retry_kept_instStep (s s' : St) (g i : Nat) (f : G → Inst → Option I
   exact pending_of_key (by simp [St.key, this]) hp
 
 /-- a forced start appends a waiting instance to the record's generation and makes it current -/
-theorem start_force_spec (s : St) (k : Nat) (r : Rec) (y : G)
+theorem start_force_spec (s : St) (k : Nat) (r : Rec) (y : G) (hfn : r.hasFn = true)
     (hy : (cancelOpt s r.gen r.cancelOf).gens[r.gen]? = some y) :
     ∃ r' y' x, (start s k r true).key k = some r' ∧ r'.exited = false ∧ r'.gen = r.gen ∧
       r'.cur = some y.insts.length ∧ (start s k r true).gens[r.gen]? = some y' ∧
@@ -96,8 +98,8 @@ theorem start_force_spec (s : St) (k : Nat) (r : Rec) (y : G)
                    cur := some y.insts.length, cancelOf := some y.insts.length },
     { y with insts := y.insts ++ [{ rid := r.id, data := r.data, waitOn := y.last }], last := some y.insts.length },
     { rid := r.id, data := r.data, waitOn := y.last }, ?_, rfl, rfl, rfl, ?_, by simp, rfl, rfl⟩
-  · simp [start, hy]
-  · simp [start, hy, gens_modG]
+  · simp [start, hy, hfn]
+  · simp [start, hy, gens_modG, hfn]
 
 theorem gens_cancelOpt_some (s : St) (g : Nat) (o : Option Nat) (y : G) (hy : s.gens[g]? = some y) :
     ∃ y', (cancelOpt s g o).gens[g]? = some y' := by
@@ -118,7 +120,8 @@ theorem retry_fires (s : St) (k e : Nat) (r : Rec) (hK : KInv s) (hk : s.key k =
   have hy0' : (setRec s k (some { r with deferRetry := none })).gens[r.gen]? = some y0 := hy0
   obtain ⟨y1, hy1⟩ := gens_cancelOpt_some _ r.gen r.cancelOf y0 hy0'
   obtain ⟨r', y', x, h1, h2, h3, h4, h5, h6, h7, h8⟩ :=
-    start_force_spec (setRec s k (some { r with deferRetry := none })) k { r with deferRetry := none } y1 hy1
+    start_force_spec (setRec s k (some { r with deferRetry := none })) k { r with deferRetry := none } y1
+      (hK.fn k r hk) hy1
   refine ⟨start (setRec s k (some { r with deferRetry := none })) k { r with deferRetry := none } true,
     r', y1.insts.length, y', x, ?_, h1, h2, h4, ?_, h6, h7, h8⟩
   · have hctx' : ∀ v, (setRec s k v).ctx = some c := fun _ => hc
